@@ -23,6 +23,8 @@ func checkC09(r *core.Run) {
 	r.Rule("G-term / G-renew / G-perm / G-updmeta / G-store-upd: effect <= verifySignature(...) err == nil AND (metadata.Owner == signer DID OR signer DID ∈ metadata.ReadwriteDids) — owner only for renew and permission update")
 	r.Rule("G-newmeta: a new model's Owner is the verified proposal owner; identifiers passed to the model keeper are fields of the signed proposal")
 	r.Rule("CAP-meta: model:{Metadata,Model,ExpiredData} written only from {sao Store, Complete, Renew, Terminate, UpdataPermission, Cancel, the timeout handler, model end-block, model genesis}")
+	r.Rule("T-perm-applied: model.UpdatePermission assigns both grant lists from the verified request on every path that persists the metadata (an empty list revokes)")
+	rulePermApplied(r, "T-perm-applied")
 	r.Assume(aDeps)
 	r.Assume(aCG)
 	r.Assume("A-sig: sao-did VerifyJWS rejects unless the DID part of the signature's kid equals the DID the manager was created with (proposal.Owner), and verifies the signature over the given payload with the keys of the document the resolver returns for the kid's version id (read in sao-did v0.0.12: did.go VerifyJWS, sid/sid_resolver.go Resolve)")
